@@ -216,13 +216,13 @@ def table(body_order, note_form, case='same', K=2, fix=None):
         elif note_form == 'block':
             nt = '  ' + _case('Note', case) + ' {\n' + ws + docs.q_single(txt) + '\n  }\n'
         else:
-            nt = '  ' + _case('note', case) + ': ' + docs.q_triple('\n    ' + txt + '\n    second line\n  ') + '\n'
+            nt = '  ' + _case('note', case) + ': ' + docs.q_triple('\n    ' + txt + 'x\n  \n    second line\n  ') + '\n'
         idx = '  ' + _case('indexes', case) + ' {\n' + ws + '(id, name) [' + _case('unique', case) + ']\n' + ('\n' if a['blank'] else '') + '    name\n  }\n'
         parts = {'c': cols, 'n': nt if a['b_note'] else '', 'i': idx}
         bodytxt = ''.join(parts[k] for k in body_order)
         doc = ('\n' if a['blank'] else '') + head + ' {\n' + bodytxt + '}\n'
         if a['b_note']:
-            note = norm(txt) if note_form != 'triple' else norm('\n    ' + txt + '\n    second line\n  ')
+            note = norm(txt) if note_form != 'triple' else norm('\n    ' + txt + 'x\n  \n    second line\n  ')      # interior line of 2 blanks, indentation 4
         elif a['h_note']:
             note = 'settings note'
         else:
